@@ -39,6 +39,7 @@ Init ==
   \/ \E n \in {0, 1, 65535, 65536} : c = [op |-> "execute", id |-> <<"rep", 5, n>>, meta_id |-> <<0, <<"rep", 9, 0>>>>, params |-> ParamsOf(0, 2, 1), tracing |-> 0]
   \/ \E n \in {65535, 65536} : c = [op |-> "execute", id |-> <<"rep", 5, 16>>, meta_id |-> <<1, <<"rep", 9, n>>>>, params |-> ParamsOf(0, 2, 1), tracing |-> 0]
   \/ \E n \in {65535, 65536} : c = [op |-> "query", text |-> Txt, params |-> [ParamsOf(1, 2, 1) EXCEPT !.values = <<"nulls", n>>], tracing |-> 0]
+  \/ \E n \in {65535, 65536, 65537} : c = [op |-> "execute", id |-> <<"rep", 5, 16>>, meta_id |-> <<0, <<"rep", 9, 0>>>>, params |-> [ParamsOf(1, 2, 1) EXCEPT !.values = <<"nulls_row", n>>], tracing |-> 0]
   \/ \E n \in {65535, 65536} : c = [op |-> "query", text |-> <<"rep", 113, n>>, params |-> ParamsOf(5, 2, 1), tracing |-> 1]
   \/ \E ev \in {<< >>, <<"TOPOLOGY_CHANGE", "STATUS_CHANGE", "SCHEMA_CHANGE">>, <<"STATUS_CHANGE">>} : c = [op |-> "register", events |-> ev, tracing |-> 0]
   \/ c = [op |-> "options", tracing |-> 0]
